@@ -44,7 +44,7 @@ type cfg struct {
 	CON       bool
 	BlockWise bool
 	TokFamily bool   // caller-chosen tokens of different lengths that share bytes: b0, b000, 00b0
-	Collide   string // "" | "reuse" (caller K reuses caller 0's outstanding token) | "race" (callers 0 and 1 use the same token concurrently)
+	Collide   string // "" | "reuse" (caller K reuses caller 0's outstanding token) | "race" (callers 0 and 1 use the same token concurrently) | "after" (caller K reuses caller 0's token after that call has returned)
 	Preempt   int
 	Env       int
 	BigBody   bool // responses carry 40-byte bodies over 3 blocks (SZX16)
@@ -77,11 +77,12 @@ func scenario(c cfg, mk func() transport) *mcx.Scenario {
 			}
 			tr := mk()
 			n := c.K
-			if c.Collide == "reuse" {
+			if c.Collide == "reuse" || c.Collide == "after" {
 				n = c.K + 1
 			}
 			callers := make([]*caller, n)
 			nonceOf := map[string]int{} // body -> request index it was generated for
+			dupType := map[string]string{} // body -> type of the response datagram that was delivered a second time
 			vrt.App("peer", func() {
 				tr.Build(c.BlockWise)
 				onWire := make([]bool, n)
@@ -94,7 +95,7 @@ func scenario(c cfg, mk func() transport) *mcx.Scenario {
 					if c.Collide == "race" && i == 1 {
 						tok = message.Token{0xB0}
 					}
-					if c.Collide == "reuse" && i == n-1 {
+					if (c.Collide == "reuse" || c.Collide == "after") && i == n-1 {
 						tok = message.Token{0xB0}
 					}
 					cctx, ccancel := context.WithCancel(context.Background())
@@ -102,6 +103,9 @@ func scenario(c cfg, mk func() transport) *mcx.Scenario {
 					vrt.App(fmt.Sprintf("caller%d", i), func() {
 						if c.Collide == "reuse" && i == n-1 {
 							vrt.WaitUntil("reuser waits until the first request is on the wire", func() bool { return onWire[0] })
+						}
+						if c.Collide == "after" && i == n-1 {
+							vrt.WaitUntil("the token is reused once the first call has returned", func() bool { return callers[0].done })
 						}
 						req := tr.Acquire(cctx)
 						req.SetCode(codes.GET)
@@ -190,6 +194,15 @@ func scenario(c cfg, mk func() transport) *mcx.Scenario {
 							if p.answered && serveBlock(p, o) {
 								continue
 							}
+							if c.Collide == "after" && p.idx == 0 && p.answered && callers[0].done && (o.MessageID != p.mid || !tr.Datagram()) {
+								// the token is free again and a new request carries it: a new exchange for the peer
+								// (the old one stays in the list: its response may still be duplicated or retransmitted)
+								onWire[n-1] = true
+								p2 := &pend{idx: n - 1, tok: o.Token, mid: o.MessageID, con: tr.Datagram() && o.Type == message.Confirmable}
+								pending = append(pending, p2)
+								byTok[key] = p2
+								continue
+							}
 							if o.MessageID != p.mid || !tr.Datagram() {
 								p.second = true // a second request carrying this token reached the wire
 							}
@@ -203,7 +216,7 @@ func scenario(c cfg, mk func() transport) *mcx.Scenario {
 							}
 						}
 						for i, cl := range callers {
-							if string(cl.token) == key {
+							if string(cl.token) == key && !(c.Collide == "after" && i == n-1) {
 								onWire[i] = true // same-token callers are indistinguishable on the wire
 							}
 						}
@@ -230,7 +243,9 @@ func scenario(c cfg, mk func() transport) *mcx.Scenario {
 									acts = append(acts, act{"sepCON", p, 0})
 								}
 							}
-						} else if dups < 1 && p.last != nil {
+						} else if dups < 1 && p.last != nil && !(c.Collide == "after" && !tr.Datagram()) {
+							// (on a stream a second copy of a response is a second response of the peer; once the token is
+							// in use again it cannot be told from the answer to the new request by any implementation)
 							acts = append(acts, act{"dup", p, 1})
 						}
 					}
@@ -320,6 +335,10 @@ func scenario(c cfg, mk func() transport) *mcx.Scenario {
 						callers[p.idx].cancel()
 					case "dup":
 						dups++
+						dupType[p.body] = "stream-frame"
+						if tr.Datagram() {
+							dupType[p.body] = p.last.Type.String()
+						}
 						tr.Inject(*p.last)
 					case "unknown":
 						unknowns++
@@ -353,7 +372,11 @@ func scenario(c cfg, mk func() transport) *mcx.Scenario {
 					owner, known := nonceOf[cl.gotBody]
 					if !known {
 						fail("response-content-not-from-peer", "caller %d got body %q which the peer never produced for any request", i, cl.gotBody)
-					} else if string(callers[owner].token) != string(cl.token) {
+					} else if c.Collide == "after" && owner != i && dupType[cl.gotBody] != "" {
+						// classified: the second copy of a response of the finished exchange reached the request that re-uses its token
+						fail("after-reuse/duplicate-"+dupType[cl.gotBody]+"-response-matched-by-token-only", "caller %d (re-using token %x after request %d had returned) got a second copy of the %s response the peer produced for request %d", i, []byte(cl.token), owner, dupType[cl.gotBody], owner)
+						continue
+					} else if string(callers[owner].token) != string(cl.token) || (c.Collide == "after" && owner != i) {
 						fail("response-delivered-to-other-caller", "caller %d got the content the peer produced for request %d", i, owner)
 					}
 					gotBodies[cl.gotBody]++
@@ -362,6 +385,11 @@ func scenario(c cfg, mk func() transport) *mcx.Scenario {
 					}
 				}
 				switch c.Collide {
+				case "after":
+					re := callers[len(callers)-1]
+					if re.done && re.err != nil && (errors.Is(re.err, coapErrors.ErrKeyAlreadyExists) || strings.Contains(re.err.Error(), "invalid token")) {
+						fail("token-not-reusable-after-return", "a request reusing the token of a call that had returned was rejected: %v", re.err)
+					}
 				case "reuse":
 					re := callers[len(callers)-1]
 					if re.done && re.err == nil {
@@ -401,6 +429,7 @@ func main() {
 			scs = append(scs, scenario(cfg{T: t.name, K: 2, CON: true, Preempt: 0, Env: 1}, mk))
 			scs = append(scs, scenario(cfg{T: t.name, K: 2, CON: true, Collide: "reuse", Preempt: 0, Env: 0}, mk))
 			scs = append(scs, scenario(cfg{T: t.name, K: 2, CON: true, Collide: "race", Preempt: ev.Pick(r, 0, 1), Env: 0}, mk))
+			scs = append(scs, scenario(cfg{T: t.name, K: 1, CON: true, Collide: "after", Preempt: 0, Env: ev.Pick(r, 1, 2)}, mk))
 			scs = append(scs, scenario(cfg{T: t.name, K: 2, CON: true, BlockWise: true, BigBody: true, Preempt: 0, Env: ev.Pick(r, 0, 1)}, mk))
 			continue
 		}
@@ -413,6 +442,7 @@ func main() {
 				scs = append(scs, scenario(cfg{T: t.name, K: 2, CON: con, BlockWise: bw, Preempt: pb, Env: 1}, mk))
 				scs = append(scs, scenario(cfg{T: t.name, K: 2, CON: con, BlockWise: bw, Collide: "reuse", Preempt: pb, Env: 0}, mk))
 				scs = append(scs, scenario(cfg{T: t.name, K: 2, CON: con, BlockWise: bw, Collide: "race", Preempt: ev.Pick(r, 1, 2), Env: 0}, mk))
+				scs = append(scs, scenario(cfg{T: t.name, K: 1, CON: con, BlockWise: bw, Collide: "after", Preempt: ev.Pick(r, 0, 1), Env: ev.Pick(r, 1, 2)}, mk))
 			}
 			if r.Lite() && con {
 				continue
